@@ -266,8 +266,19 @@ static bool canonical_in_child(const Config & c, uint64_t phase, const Forced * 
   return flags & 1;
 }
 
-static std::string run_config(const Config & c, int depth, long nlong)
+static std::string run_config(const Config & c_in, int depth, long nlong)
 {
+  Config c = c_in;
+  if (c.dbd() && c.mode == 0) {
+    // "any mode": the first of the two-electron, double-capture, capture-positron and two-positron modes that this
+    // nuclide accepts (the 2beta+/EC nuclides refuse the 2beta- modes and vice versa)
+    for (int m : {1, 11, 9, 12, 10, 3}) {
+      Config t = c;
+      t.mode = m;
+      Ev e;
+      if (canonical_in_child(t, PROBES[0], nullptr, e)) { c = t; break; }
+    }
+  }
   long histories = 0, probes = 0;
   std::vector<std::pair<std::string, std::string>> viol;
   std::string sample;
